@@ -18,7 +18,7 @@ C07_Metrics == S.mfail <= Cardinality({j \in Jobs : H.exits[j] >= 1 /\ Outcome[j
 \* acknowledged only after the worker function returned for the job; only ids the adapter holds; nothing accepted is ever lost
 C11_AckAfter == \A j \in S.acked : H.exits[j] >= 1
 C11_AckIssued == S.badack = 0
-C11_NoLoss == Adapter => \A j \in H.accepted : j \in Range(S.q) \/ (\E u \in S.unacked : u[2] = j) \/ j \in S.acked \/ j \in H.purged
+C11_NoLoss == Adapter => \A j \in H.accepted : j \in Range(S.q[1]) \/ (\E u \in S.unacked : u[2] = j) \/ j \in S.acked \/ j \in H.purged
 \* recovery: at the end (no step possible) everything accepted has been processed completely, unless an acknowledgement was refused
 C11_Recovery == (Adapter /\ ~ENABLED Next /\ S.ws = "running" /\ ~(\E f \in Faults : f[1] = "ack")) => \A j \in H.accepted : j \in S.acked \/ j \in H.purged
 C02_Bound == Cardinality(Inflight) <= H.concMax
@@ -41,10 +41,10 @@ Quiet == ~ENABLED Internal
 \* when nothing internal can move and the worker is running, nothing accepted is left over and no client sleeps
 C03_NoStall == (~ENABLED Next /\ S.ws = "running") =>
                   /\ \A j \in H.accepted : Settled(j) \/ j \in H.cancelNil
-                  /\ S.q = <<>> /\ S.cur = 0
+                  /\ QTot = 0 /\ S.cur = 0
                   /\ AllDone
 C06_Returns == ~ENABLED Next => \A c \in Clients : S.pc[c] \in {"wuf.cw", "wuf.wait", "wuf.locked", "wuf.woken"} =>
-                   Len(S.q) > 0 /\ ~(S.loc[c].solo /\ Op(c).op \in {"PauseAndWait", "Stop", "Restart"})
+                   QTot > 0 /\ ~(S.loc[c].solo /\ Op(c).op \in {"PauseAndWait", "Stop", "Restart"})
 C05_Returns == ~ENABLED Next => \A c \in Clients : (S.pc[c] = "call" /\ HasOp(c) /\ Op(c).op = "Wait") => ~Settled(Op(c).job) \/ S.jwg[Op(c).job] > 0
 \* temporal (FairSpec): every client finishes its script when the script leaves the worker running
 C03_Live == <>[](AllDone)
